@@ -213,6 +213,9 @@ func C11(p *load.Prog, r *oblig.Run) {
 		r.Add("R11.a", "analysis", p.Pos(root.Pos()), "budget").Unknown("analysis budget exceeded")
 	}
 	raceObligations(p, r, "R11.a", a, loadRaceTable(), "IndividualNodes.Compare")
+	// certain matches rest on unique identifiers: an identifier used while its parse error is thrown away pairs
+	// everybody whose identifier is malformed (C10's R10.b over the same pipeline)
+	c10Errors(p, r)
 	r.Rule("R11.b", "a field written under a mutex by the concurrent workers is only read under a mutex there", 3)
 	lockConsistency(p, r, "R11.b", a, g, root)
 	pipelineStructure(p, r, g, root)
